@@ -6,9 +6,10 @@ import TensorModel.Ext.Linalg
 import TensorModel.Ext.Serial
 import TensorModel.Ext.Reduce
 import TensorModel.Ext.Mask
+import TensorModel.Ext.Assemble
 /-! Registry of operation families (one import + one list entry per family). -/
 namespace TM
 
-def families : List Family := [minMaxFamily, enginesFamily, historyFamily, linalgFamily, serialFamily, reduceFamily, maskFamily]
+def families : List Family := [minMaxFamily, enginesFamily, historyFamily, linalgFamily, serialFamily, reduceFamily, maskFamily, assembleFamily]
 
 end TM
